@@ -53,3 +53,23 @@ void fx_r_ok(uint64_t n, double* res, const double* a, double* tmp) {
   for (uint64_t i = 0; i < n; ++i) tmp[i] = a[i];
   for (uint64_t i = 0; i < n; ++i) res[i] = tmp[i];
 }
+
+// interval canaries (E5)
+// accumulator that exceeds 64 bits for ell = 10000 full-range operands
+void fx_i_acc_overflow(uint64_t ell, uint64_t* res, const uint64_t* x) {
+  uint64_t acc = 0;
+  for (uint64_t i = 0; i < ell; ++i) acc += x[i] >> 10;   // 10000 * 2^54 > 2^64
+  res[0] = acc;
+}
+// 32x32 multiply whose operand is wider than 32 bits and whose high part is dropped
+void fx_i_mask32(uint64_t ell, uint64_t* res, const uint64_t* x) {
+  uint64_t acc = 0;
+  for (uint64_t i = 0; i < ell; ++i) acc += ((x[i] >> 20) & 0xffffffffu) * 3u;
+  res[0] = acc;
+}
+// negative control
+void fx_i_ok(uint64_t ell, uint64_t* res, const uint64_t* x) {
+  uint64_t acc = 0;
+  for (uint64_t i = 0; i < ell; ++i) acc += (x[i] & 0xffffffffu) * (x[i] >> 32) >> 16;
+  res[0] = acc;
+}
